@@ -18,6 +18,8 @@ From Verif Require Import GuardsPeriod GuardsPeriodSem GuardsInput GuardsInputEn
 From Verif Require Import GuardsProofs GuardsPeriodProofs GuardsInputEngineProofs.
 From Verif Require GuardsInputProofs.
 From Verif Require Import GuardsPlan EnginePlan GuardsPlanProofs.
+From Verif Require Import GuardsStorage GuardsStorageSem GuardsStorageProofs.
+From Verif Require Import GuardsHolder GuardsHolderSem GuardsHolderProofs.
 Import ListNotations.
 Open Scope Z_scope.
 
@@ -189,6 +191,78 @@ Print Assumptions source_check_for_cycle_plan.
 Theorem source_purge_plan : gen_purge_plan = purge_plan.
 Proof. exact gen_purge_plan_is_model. Qed.
 Print Assumptions source_purge_plan.
+
+(** ** The two storages (coq/gen/GuardsStorage.v, from data_storage/in_memory_storage.py and
+       on_disk_storage.py): same description, and it is the engine's *)
+
+Theorem source_storages_agree : forall is_eternal period_is_none,
+  gen_memory_get_key is_eternal period_is_none = gen_disk_get_key is_eternal period_is_none
+  /\ gen_memory_put_key is_eternal period_is_none = gen_disk_put_key is_eternal period_is_none
+  /\ gen_memory_delete is_eternal period_is_none = gen_disk_delete is_eternal period_is_none.
+Proof. exact storages_agree. Qed.
+Print Assumptions source_storages_agree.
+
+Theorem source_storage_description : forall is_eternal period_is_none,
+  gen_memory_get_key is_eternal period_is_none = (if is_eternal then KEternity else KGiven)
+  /\ gen_memory_put_key is_eternal period_is_none = (if is_eternal then KEternity else KGiven)
+  /\ gen_memory_delete is_eternal period_is_none
+     = (if period_is_none then DeleteAll
+        else DeleteContained (if is_eternal then KEternity else KGiven)).
+Proof. exact storage_keys_table. Qed.
+Print Assumptions source_storage_description.
+
+Theorem source_norm : forall x p,
+  norm x p = apply_key (gen_memory_get_key (unit_eqb (v_unit x) Eternity) false) p
+  /\ norm x p = apply_key (gen_memory_put_key (unit_eqb (v_unit x) Eternity) false) p.
+Proof. exact (fun x p => conj (norm_is_source_get x p) (norm_is_source_put x p)). Qed.
+Print Assumptions source_norm.
+
+Theorem source_delete_one : forall sy k c, delete_one sy k c = src_delete_one sy k c.
+Proof. exact delete_one_is_source. Qed.
+Print Assumptions source_delete_one.
+
+Theorem source_delete_arrays : forall sy s v p, delete_arrays sy s v p = src_delete_arrays sy s v p.
+Proof. exact delete_arrays_is_source. Qed.
+Print Assumptions source_delete_arrays.
+
+(** ** The holder (coq/gen/GuardsHolder.v, from holders/holder.py): where a value is read and
+       written.  The model's cache merges the memory and the disk storage ([merged],
+       coq/model/GuardsHolderSem.v); the regenerated selections only choose WHERE. *)
+
+Theorem source_holder_get_array : forall neutralized memory_hit has_disk,
+  gen_holder_get_array neutralized memory_hit has_disk
+  = if neutralized then GDefault else if memory_hit then GMemory
+    else if has_disk then GDisk else GNothing.
+Proof. exact gen_holder_get_array_table. Qed.
+Print Assumptions source_holder_get_array.
+
+Theorem source_holder_put_in_cache : forall do_not_store opt_out_cache blacklist_nonempty name_in_blacklist,
+  gen_holder_put_in_cache do_not_store opt_out_cache blacklist_nonempty name_in_blacklist
+  = if do_not_store || (opt_out_cache && blacklist_nonempty && name_in_blacklist) then PSkip else PSet.
+Proof. exact gen_holder_put_in_cache_table. Qed.
+Print Assumptions source_holder_put_in_cache.
+
+Theorem source_holder_store_choice : forall on_disk_storable memory_has_value memory_pressure,
+  gen_holder_store_choice on_disk_storable memory_has_value memory_pressure
+  = if on_disk_storable && negb memory_has_value && memory_pressure then StDisk else StMemory.
+Proof. exact gen_holder_store_choice_table. Qed.
+Print Assumptions source_holder_store_choice.
+
+Theorem source_store_key_is_norm : forall c x p, store_key c x p = norm x p.
+Proof. exact store_key_is_norm. Qed.
+Print Assumptions source_store_key_is_norm.
+
+Theorem source_get_array : forall pp x s mem disk has_disk v p,
+  merged (cache s) mem disk has_disk ->
+  get_array pp x s v p = src_get_array pp x mem disk has_disk v p.
+Proof. exact get_array_is_source. Qed.
+Print Assumptions source_get_array.
+
+Theorem source_put_in_cache : forall dns oo ne inb x v p a s,
+  v_nostore x = dns || (oo && ne && inb) ->
+  put_in_cache x v p a s = src_put_in_cache dns oo ne inb x v p a s.
+Proof. exact put_in_cache_is_source. Qed.
+Print Assumptions source_put_in_cache.
 
 (** ** Non-vacuity: the regenerated guards do raise and do accept *)
 
